@@ -103,12 +103,19 @@ func checkSum(c *harness.Ctx, st *histState, op int) (key, desc string) {
 	return "", ""
 }
 
-func runHistory(c *harness.Ctx, first int, depth int, x *xp.X) (ops []int, key, desc string) {
+// reduced alphabet for the deeper exploration
+var reducedOps = []int{1, 5, 6, 7, opSumNil, opSumPfx, opSumPfxC, opReset}
+
+func runHistory(c *harness.Ctx, first int, depth int, x *xp.X, alphabet []int) (ops []int, key, desc string) {
 	st := &histState{h: sm3.New()}
 	for step := 0; step < depth; step++ {
 		op := first
 		if step > 0 {
-			op = x.Pick(nOps, "op")
+			if alphabet != nil {
+				op = alphabet[x.Pick(len(alphabet), "op")]
+			} else {
+				op = x.Pick(nOps, "op")
+			}
 		}
 		ops = append(ops, op)
 		c.Add("transitions", 1)
@@ -146,10 +153,14 @@ func runHistory(c *harness.Ctx, first int, depth int, x *xp.X) (ops []int, key, 
 	return ops, "", ""
 }
 
-func histUnit(first, depth int) harness.Unit {
-	return harness.Unit{Name: fmt.Sprintf("hist/first=%s/depth=%d", opName(first), depth), Run: func(c *harness.Ctx) {
+func histUnit(first, depth int, alphabet []int) harness.Unit {
+	nm := "hist"
+	if alphabet != nil {
+		nm = "hist-reduced"
+	}
+	return harness.Unit{Name: fmt.Sprintf("%s/first=%s/depth=%d", nm, opName(first), depth), Run: func(c *harness.Ctx) {
 		c.Explore(-1, func(x *xp.X) {
-			ops, key, desc := runHistory(c, first, depth, x)
+			ops, key, desc := runHistory(c, first, depth, x, alphabet)
 			c.DistinctS("outcomes", key)
 			if c.WantSample() {
 				c.Sample(seqName(ops))
@@ -334,18 +345,21 @@ var Prop = &harness.Prop{
 	Assumptions: []string{"refsm3 is a correct transcription of GM/T 0004 (self-tested on the standard's vectors by setup.sh)", "message bytes are a fixed function of position; digest collisions between distinct models are ignored"},
 	Bounds: func(tier string) string {
 		if tier == "thorough" {
-			return "histories: all sequences of length 6 over 14 operations (+ implicit final Sum); 2-splits: all L<=600; 3-splits: all L<=140; one-shot: all L<=8192; streams 3 MiB by 4096 and by 4099"
+			return "histories: all sequences of length 7 over 14 operations and of length 9 over the reduced 8-operation alphabet {Write 1/63/64/65, 3 Sums, Reset} (+ implicit final Sum); 2-splits: all L<=600; 3-splits: all L<=140; one-shot: all L<=8192; streams 3 MiB by 4096 and by 4099"
 		}
-		return "histories: all sequences of length 5 over 14 operations (+ implicit final Sum); 2-splits: all L<=300; 3-splits: all L<=70; one-shot: all L<=2100 and 8000..8192; stream 3 MiB by 4096"
+		return "histories: all sequences of length 5 over 14 operations and of length 7 over the reduced 8-operation alphabet {Write 1/63/64/65, 3 Sums, Reset} (+ implicit final Sum); 2-splits: all L<=300; 3-splits: all L<=70; one-shot: all L<=2100 and 8000..8192; stream 3 MiB by 4096"
 	},
 	Units: func(tier string) []harness.Unit {
 		var u []harness.Unit
-		depth := 5
+		depth, rdepth := 5, 7
 		if tier == "thorough" {
-			depth = 6
+			depth, rdepth = 7, 9
 		}
 		for f := 0; f < nOps; f++ {
-			u = append(u, histUnit(f, depth))
+			u = append(u, histUnit(f, depth, nil))
+		}
+		for _, f := range reducedOps {
+			u = append(u, histUnit(f, rdepth, reducedOps))
 		}
 		if tier == "thorough" {
 			for lo := 0; lo <= 600; lo += 50 {
